@@ -3,6 +3,7 @@ package main
 // `rosvc check --property Cxx --tier quick|thorough`: the command registered in MANIFEST.json.
 
 import (
+	"runtime/debug"
 	"os/exec"
 	"sync"
 	"encoding/json"
@@ -150,6 +151,7 @@ func cmdCheck(repo, prop, tier string) int {
 			continue
 		}
 		r := e.verifyFunction(ct, prop, tier)
+		debug.FreeOSMemory() // thousands of path states per large function: give the memory back before the next one
 		totalPaths += r.Paths
 		for k, v := range r.Unmodel {
 			unmodelled[k] += v
